@@ -11,6 +11,10 @@ let print_kind_x (k : kind) : string * string =
   | KTableCell a -> "TableCell", align_digit a
   | KStrikethrough -> "Strikethrough", "-"
   | KTaskCheckBox c -> "TaskCheckBox", s_of_bool c
+  | KFootnoteLink (i, rc, ri) -> "FootnoteLink", Printf.sprintf "%d:%d:%d" (int_of_z i) (int_of_z rc) (int_of_z ri)
+  | KFootnoteBacklink (i, rc, ri) -> "FootnoteBacklink", Printf.sprintf "%d:%d:%d" (int_of_z i) (int_of_z rc) (int_of_z ri)
+  | KFootnote i -> "Footnote", string_of_int (int_of_z i)
+  | KFootnoteList -> "FootnoteList", "-"
   | _ -> print_kind k
 let print_tree_x (t : tree) : string =
   let b = Buffer.create 256 in
@@ -21,7 +25,7 @@ let print_tree_x (t : tree) : string =
     let (name, f) = print_kind_x k in
     let is_inline = (match k with
       | KText _ | KString _ | KCodeSpan | KEmphasis _ | KLink _ | KImage _ | KAutoLink _ | KRawHTML _
-      | KStrikethrough | KTaskCheckBox _ -> true
+      | KStrikethrough | KTaskCheckBox _ | KFootnoteLink _ | KFootnoteBacklink _ -> true
       | _ -> false) in
     Buffer.add_string b (Printf.sprintf "%d|%s|%s|%s|N" depth name f
       (if is_inline || lines = [] then "-" else String.concat "," (List.map seg_s lines)));
@@ -36,6 +40,62 @@ let parse_xcfg (s : string) : xcfg =
 let tree_res = function Ok t -> print_tree_x t | Panic -> "PANIC" | OutOfFuel -> "FUEL"
 let bytes_res = function Ok o -> hex_of_bytes o | Panic -> "PANIC" | OutOfFuel -> "FUEL"
 
+(* the heading options (model/HeadingOpts.v): a WithAttribute, i WithAutoHeadingID ("-": none);
+   the tree dump with the attributes of the nodes, as go/cmd/gmh/dump.go dumpAttrs prints them *)
+let parse_hcfg (s : string) : hcfg = { h_attr = String.contains s 'a'; h_autoid = String.contains s 'i' }
+let attrs_s (a : attr list option) : string =
+  match a with
+  | None -> "N"
+  | Some [] -> "E"
+  | Some l -> String.concat ";" (List.map (fun a ->
+      match a.a_val with
+      | AVBytes v -> hex_of_bytes a.a_name ^ ":b:" ^ hex_of_bytes v
+      | AVString v -> hex_of_bytes a.a_name ^ ":s:" ^ hex_of_bytes v
+      | AVOther -> hex_of_bytes a.a_name ^ ":o:-") l)
+let print_tree_h (t : tree) : string =
+  let b = Buffer.create 256 in
+  let first = ref true in
+  let rec go depth (Node (k, lines, a, kids)) =
+    if not !first then Buffer.add_char b '~';
+    first := false;
+    let (name, f) = print_kind_x k in
+    let is_inline = (match k with
+      | KText _ | KString _ | KCodeSpan | KEmphasis _ | KLink _ | KImage _ | KAutoLink _ | KRawHTML _
+      | KStrikethrough | KTaskCheckBox _ | KFootnoteLink _ | KFootnoteBacklink _ -> true
+      | _ -> false) in
+    Buffer.add_string b (Printf.sprintf "%d|%s|%s|%s|%s" depth name f
+      (if is_inline || lines = [] then "-" else String.concat "," (List.map seg_s lines)) (attrs_s a));
+    List.iter (go (depth + 1)) kids in
+  go 0 t; Buffer.contents b
+let tree_res_h = function Ok t -> print_tree_h t | Panic -> "PANIC" | OutOfFuel -> "FUEL"
+
+(* the node kinds of the Typographer / DefinitionList model (model/TypoDefI.v) *)
+let print_kind_td (k : kind) : string * string =
+  match k with
+  | KDefinitionList -> "DefinitionList", "-" | KDefinitionTerm -> "DefinitionTerm", "-"
+  | KDefinitionDescription t -> "DefinitionDescription", s_of_bool t
+  | _ -> print_kind k
+let print_tree_td (t : tree) : string =
+  let b = Buffer.create 256 in
+  let first = ref true in
+  let rec go depth (Node (k, lines, _, kids)) =
+    if not !first then Buffer.add_char b '~';
+    first := false;
+    let (name, f) = print_kind_td k in
+    let is_inline = (match k with
+      | KText _ | KString _ | KCodeSpan | KEmphasis _ | KLink _ | KImage _ | KAutoLink _ | KRawHTML _ -> true
+      | _ -> false) in
+    Buffer.add_string b (Printf.sprintf "%d|%s|%s|%s|N" depth name f
+      (if is_inline || lines = [] then "-" else String.concat "," (List.map seg_s lines)));
+    List.iter (go (depth + 1)) kids in
+  go 0 t; Buffer.contents b
+(* the installed extensions: t typographer, d definition list ("-": none) *)
+let parse_tcfg (s : string) : tcfg = { t_typo = String.contains s 't'; t_deflist = String.contains s 'd' }
+let tree_res_td = function Ok t -> print_tree_td t | Panic -> "PANIC" | OutOfFuel -> "FUEL"
+let rune_class = function
+  | "uni_punct_ranges" -> 0 | "uni_space_ranges" -> 1 | "uni_digit_ranges" -> 2 | "uni_letter_ranges" -> 3
+  | s -> failwith ("unknown rune class " ^ s)
+
 let eval (fn : string) (args : string list) : string =
   match fn, args with
   | "ParseTreeX", [x; src] -> tree_res (parseTreeX (parse_xcfg x) (bytes_of_hex src))
@@ -44,4 +104,14 @@ let eval (fn : string) (args : string list) : string =
   | "GfmTablesOk", [x; src] ->
     (match gfmTablesOk (parse_xcfg x) (bytes_of_hex src) with Ok b -> s_of_bool b | Panic -> "PANIC" | OutOfFuel -> "FUEL")
   | "ConvertGfm", [cfg; src] -> bytes_res (convertModelGfmC (parse_rcfg cfg) (bytes_of_hex src))
+  | "ParseTreeH", [h; src] -> tree_res_h (parseTreeH (parse_hcfg h) (bytes_of_hex src))
+  | "ConvertH", [h; cfg; src] -> bytes_res (convertModelH (parse_hcfg h) (parse_rcfg cfg) (bytes_of_hex src))
+  | "ParseTreeFn", [src] -> tree_res (parseTreeFn (bytes_of_hex src))
+  | "ConvertFn", [cfg; src] -> bytes_res (convertModelFn (parse_rcfg cfg) (bytes_of_hex src))
+  | "ParseTreeTD", [t; src] -> tree_res_td (parseTreeTD (parse_tcfg t) (bytes_of_hex src))
+  | "ConvertTD", [t; cfg; src] -> bytes_res (convertModelTD (parse_tcfg t) (parse_rcfg cfg) (bytes_of_hex src))
+  | "TDRuneRanges", [c] ->
+    (match tDRuneRanges (n_of_int (rune_class c)) with
+     | [] -> "-"
+     | l -> String.concat "," (List.map (fun (a, b) -> Printf.sprintf "%d-%d" (int_of_n a) (int_of_n b)) l))
   | _ -> failwith ("unknown case kind " ^ fn)
